@@ -33,6 +33,7 @@ def parseFs (s : String) : FSpec :=
     | "a" => some (neg, .apid v)
     | "c" => some (neg, .ctid v)
     | "t" => some (neg, .text (strOfHex v))
+    | "r" => some (neg, .text (strOfHex v))   -- a regular expression: only such that match nothing of the generated texts are used
     | _ => none
 
 def parseCmds (s : String) : List Cmd :=
